@@ -60,4 +60,16 @@ CHECKS['C08'] = {'engine': 'EX', 'design_ref': 'DESIGN.md 6 C08',
     'technique': 'bounded exhaustive enumeration: 12 classes x data x sampling alphabet x NFFT x scale_by_freq; arma2psd over every coefficient vector of a 5-letter alphabet up to length 3 against direct polynomial evaluation',
     'text': 'Every class for every sampling frequency and both scale_by_freq values; arma2psd for every lattice coefficient vector, variance, sampling and NFFT, compared with direct evaluation of (rho/T)|B|^2/|A|^2.',
     'note': _EX_NOTE}
+CHECKS['C15'] = {'engine': 'EX', 'design_ref': 'DESIGN.md 6 C15',
+    'technique': 'bounded exhaustive enumeration of every (P,Q,lag) / (Q,M) in the documented domain on fixed noise-like and ARMA-generated records; dense modified Yule-Walker reference; PSD against |B|^2/|A|^2 of the exposed coefficients',
+    'text': 'Every order triple in the domain (both solver branches) on every record of the fixed families: counts, invertibility, positive variance, modified Yule-Walker least squares for P=Q, class PSD proportionality.',
+    'note': _EX_NOTE}
+CHECKS['C16'] = {'engine': 'EX', 'design_ref': 'DESIGN.md 6 C16',
+    'technique': 'bounded exhaustive enumeration of lattice data and fixed families x every dimension m x NFFT parities x sampling against the dense quadratic form e^H R^-1 e built from a reference Burg lattice',
+    'text': 'Every lattice sequence and fixed record, every m in 2..min(N/2,16): the returned spectrum is compared with sampling / Re(e^H R^-1 e) computed densely from an independent Burg model.',
+    'note': _EX_NOTE}
+CHECKS['C17'] = {'engine': 'EX', 'design_ref': 'DESIGN.md 6 C17',
+    'technique': 'bounded exhaustive enumeration of EVERY K-subset (K<=3) of the NFFT grid x amplitudes x N x every P x {music, ev}; reference forward-backward SVD; full product of argument-validation cases',
+    'text': 'Every subset of on-grid frequencies with every subspace order: peak neighbourhoods dominate, positivity, singular values equal those of the reference data matrix, exactly K non-negligible; invalid argument combinations raise.',
+    'note': _EX_NOTE}
 NOT_BUILT = {}
